@@ -191,6 +191,10 @@ func (a *actor) runActorCommandWithConsumer(
 				if interrupt {
 					// Interrupting the command softly, after a timeout.
 					killCmd()
+					// killCmd only kills the group leader. The command
+					// runs in its own process group (its pgid is its pid):
+					// also kill the members that ignored the SIGHUP.
+					syscall.Kill(-cmd.Process.Pid, syscall.SIGKILL)
 				}
 
 			case res := <-lines:
